@@ -4,7 +4,7 @@ from mc.props import _cellprop
 from mc.worlds import cellcfg, cellmon
 from mc.worlds.cellcfg import T1, T2
 
-BUDGET = {'quick': 240, 'thorough': 2400}
+BUDGET = {'quick': 600, 'thorough': 2400}
 HASH_INSENSITIVE = True
 DAY = 24 * 3600
 
